@@ -22,17 +22,10 @@ CHECK_DEADLOCK FALSE
 """
 
 
-def run(ctx):
-    # R1: the cache + dispatcher model composed with the monitor
-    for lim, mt, ms in ([(2, 9, 2), (1, 6, 3)] if ctx.tier == "quick" else [(2, 9, 3), (1, 9, 3), (3, 12, 3)]):
-        ctx.tlc_check("InstanceCache", ctx.write_cfg("InstanceCache.%d-%d-%d.cfg" % (lim, mt, ms), R1 % (lim, mt, ms, "FALSE")),
-                      label="limit=%d maxtime=%d submits=%d" % (lim, mt, ms), timeout=3000)
-    bad = ctx.tlc_check("InstanceCache", ctx.write_cfg("InstanceCache.forget.cfg", R1 % (2, 9, 2, "TRUE")), label="forget on error (must fail)", must_pass=False)
-    if not bad.violated:
-        raise vlib.MachineryError("vacuity: the forget-on-error variant was not refuted")
-    plans = [("bfs3", 3, None, None), ("sim10", 10, "num=%d" % (700 if ctx.tier == "quick" else 20000), 11)]
-    if ctx.tier == "thorough":
-        plans.insert(1, ("bfs4", 4, None, None))
+def stage(ctx, plans):
+    """Runs the cache schedules; returns (named situations, [(clause, replay, description)]). Also used by C19: events wait in the
+    cloud stage for exactly these answers."""
+    found = []
     named = {}
     for label, ml, sim, depth in plans:
         cfg = ctx.write_cfg("CacheSched.%s.cfg" % label, SCHED % ml)
@@ -60,7 +53,24 @@ def run(ctx):
             while start > 0 and '"ev":"start"' not in lines[start]:
                 start -= 1
             keep = ctx.save_replay(v.bad.split("(")[0], {"clause": v.bad, "trace_line": v.line, "run_trace": [json.loads(x) for x in lines[start:v.line]]})
-            ctx.violation(v.bad, keep, "CacheProp clause %s broken at trace line %d: %s" % (v.bad, v.line, lines[v.line - 1][:300]))
+            found.append((v.bad, keep, "CacheProp clause %s broken at trace line %d: %s" % (v.bad, v.line, lines[v.line - 1][:300])))
+    return named, found
+
+
+def run(ctx):
+    # R1: the cache + dispatcher model composed with the monitor
+    for lim, mt, ms in ([(2, 9, 2), (1, 6, 3)] if ctx.tier == "quick" else [(2, 9, 3), (1, 9, 3), (3, 12, 3)]):
+        ctx.tlc_check("InstanceCache", ctx.write_cfg("InstanceCache.%d-%d-%d.cfg" % (lim, mt, ms), R1 % (lim, mt, ms, "FALSE")),
+                      label="limit=%d maxtime=%d submits=%d" % (lim, mt, ms), timeout=3000)
+    bad = ctx.tlc_check("InstanceCache", ctx.write_cfg("InstanceCache.forget.cfg", R1 % (2, 9, 2, "TRUE")), label="forget on error (must fail)", must_pass=False)
+    if not bad.violated:
+        raise vlib.MachineryError("vacuity: the forget-on-error variant was not refuted")
+    plans = [("bfs3", 3, None, None), ("sim10", 10, "num=%d" % (700 if ctx.tier == "quick" else 20000), 11)]
+    if ctx.tier == "thorough":
+        plans.insert(1, ("bfs4", 4, None, None))
+    named, found = stage(ctx, plans)
+    for clause, keep, desc in found:
+        ctx.violation(clause, keep, desc)
     for need in ("tick", "emit", "outcome:error", "outcome:partial", "outcome:errpartial", "outcome:empty"):
         if named.get(need, 0) == 0:
             raise vlib.MachineryError("vacuity: %s never reached" % need)
